@@ -52,6 +52,7 @@ def canon(case):
 
 
 UNDEF = {"fn": 401, "const": 402, "struct": 405}
+LLVM_VERIFIER = ("Invalid InsertValueInst operands", "Broken module found", "Broken function found")
 
 
 def compare(case, obs):
@@ -224,11 +225,11 @@ def run(rep, tier, seed, selftest):
             tag = None
             mine = [x for x in runs if (x["died"] != "") == (problem == "died") and (problem != "rejected" or not x["ok"])]
             if problem == "rejected" and "pub-definition-needs-invisible" in b["tags"] and not b["closed"] and \
-                    all(x["diags"] and all(d[0] in (401, 402, 405) for d in x["diags"]) for x in mine):
+                    all(any(d[0] in (401, 402, 405) for d in x["diags"]) for x in mine):
                 tag = "pub-definition-needs-invisible"
-            if problem == "died" and "structure-shared-by-three-modules" in b["tags"] and \
-                    all("Broken module found" in x["died"] for x in mine):
-                tag = "structure-shared-by-three-modules"
+            if problem == "died" and "imported-nested-structure" in b["tags"] and \
+                    all(any(sig in x["died"] for sig in LLVM_VERIFIER) for x in mine):
+                tag = "imported-nested-structure"
             rep.violation("split/" + problem,
                           "%sseed=%s prog=%s closed=%s" % ("[%s] " % tag if tag else "", b["seed"], b["prog"], str(b["closed"]).lower()),
                           {"part": "split", "seed": b["seed"], "prog": b["prog"], "closed": b["closed"], "nmods": b["nmods"],
